@@ -197,6 +197,7 @@ func checkC05(p *Prog, r *Report) {
 	r.rule("C05.B5", "no explicit panic is reachable from the entry points except the frozen, justified ones; unchecked type assertions agree with the static type of every value stored into the asserted container", 5)
 	r.rule("C05.B6", "every / and % with a non-constant divisor in the input-path functions has a positive divisor: a dominating fact, or a field whose every store is positive", 4)
 	r.rule("C05.B9", "the reader's copy loop stays inside the caller's buffer: PeekSize (Recv's admission test) and Recv's copy loop both stop at the first segment with frg == 0, so they agree on the message even for forged fragment numbers (= C01.S7)", 2)
+	r.rule("C05.B13", "the reader's staging buffer holds any message the peer can make the core deliver (fragment counts are peer-controlled: up to rcv_wnd segments): every reslice recvbuf[:size] to a PeekSize result is preceded on every path by the capacity test cap(recvbuf) < size whose true arm re-allocates with at least size — a fixed-size buffer panics in Read, with the session mutex held, for a message larger than it", 1)
 	r.rule("C05.B12", "no datagram can orphan a live session (unbounded growth): a session leaves the listener's table only by being closed (= C15.G8)", 2)
 	r.rule("C05.B11", "every operand of a 64-bit sync/atomic function is 64-bit aligned on 32-bit platforms as well: a struct field at an offset that is a multiple of 8 (gc/386 layout) from the start of its allocation — otherwise the first datagram that reaches the operation panics the process on 386/arm/mips", 10)
 	r.rule("C05.B10", "no datagram is longer than a pooled buffer: every receive buffer of the four read loops is allocated with at most mtuLimit bytes, and every slice of a fresh pool buffer in the input path is cut to the length of received data (or to a bound <= mtuLimit)", 5)
@@ -225,6 +226,7 @@ func checkC05(p *Prog, r *Report) {
 	checkReceiveBufferSizes(p, r, inputPathFuncs(p))
 	checkAtomicAlignment(p, r, "C05.B11")
 	checkSessionsLeaveByClose(p, r, "C05.B12")
+	checkStagingBufferGrows(p, r)
 	delegate(p, r, "C04", checkC04, "C04.W1", "C05.B8")
 	delegate(p, r, "C04", checkC04, "C04.W2", "C05.B8")
 
@@ -1717,5 +1719,75 @@ func checkAtomicAlignment(p *Prog, r *Report, rule string) {
 				r.bad(rule, fi.Name, p.Pos(call), construct, fmt.Sprintf("the operand lies at offset %d (not a multiple of 8) from the start of its allocation under the gc/386 layout: on 32-bit platforms the operation panics with 'unaligned 64-bit atomic operation' — one datagram that reaches it takes the process down", off), "")
 			}
 		})
+	}
+}
+
+// checkStagingBufferGrows: C05.B13.
+func checkStagingBufferGrows(p *Prog, r *Report) {
+	fi := p.FuncByName("(*UDPSession).Read")
+	c := p.CFG(fi)
+	fBuf := p.Field("UDPSession", "recvbuf")
+	n := 0
+	for _, st := range p.FieldStores(fBuf) {
+		if rootFuncInfo(st.Fn) != fi || st.Fn != fi || st.Rhs == nil {
+			continue
+		}
+		rt := p.Term(st.Rhs)
+		if !(rt.Op == "slice" && rt.Args[0].Op == "fld" && rt.Args[0].Obj == fBuf && rt.Args[1] == nil && rt.Args[2] != nil && !rt.Args[2].IsConst()) {
+			continue
+		}
+		n++
+		size := rt.Args[2]
+		buf := rt.Args[0]
+		pt, _ := c.PointOf(st.Node)
+		capT := mk("cap", buf)
+		// barrier: entering the false edge of cap(recvbuf) < size (or the true edge of cap >= size), or a store recvbuf = make([]byte, >= size)
+		okEdge := func(from, to *cfg.Block) bool { return true }
+		guardBlocks := map[*cfg.Block]bool{}
+		for _, b := range c.live {
+			ct := c.CondTerm(b)
+			if ct == nil || len(b.Succs) != 2 {
+				continue
+			}
+			l, ok := leZero(stripConvs(ct))
+			w, _ := leZero(lt(capT, size)) // cap - size + 1 <= 0
+			if ok && l.Equal(w) {
+				guardBlocks[b.Succs[1]] = true // cap >= size here
+				// the true arm must re-allocate: checked as a store barrier below
+			}
+			w2, _ := leZero(le(size, capT))
+			if ok && l.Equal(w2) {
+				guardBlocks[b.Succs[0]] = true
+			}
+		}
+		isRealloc := func(nd ast.Node, _ Point) bool {
+			as, ok := nd.(*ast.AssignStmt)
+			if !ok {
+				return false
+			}
+			for i, l := range as.Lhs {
+				if p.Term(l).Key() != buf.Key() || i >= len(as.Rhs) {
+					continue
+				}
+				mt := p.Term(as.Rhs[i])
+				if mt.Op == "builtin:make" && len(mt.Args) >= 2 {
+					ln := mt.Args[len(mt.Args)-1]
+					if ln.Key() == size.Key() || (ln.Op == "max" && (ln.Args[0].Key() == size.Key() || ln.Args[1].Key() == size.Key())) {
+						return true
+					}
+				}
+			}
+			return false
+		}
+		res := c.FindPath(PathQuery{From: Point{c.Entry(), 0}, IsTarget: func(_ ast.Node, q Point) bool { return q == pt }, IsBarrier: isRealloc, EdgeOK: okEdge,
+			OnBlock: func(b *cfg.Block) (bool, bool) { return false, guardBlocks[b] }})
+		if res.Found {
+			r.bad("C05.B13", fi.Name, p.Pos(st.Node), "recvbuf = "+exprString(st.Rhs), "a path reaches this reslice without the capacity test cap(recvbuf) >= "+pretty(size.Key())+" and without re-allocating: a message longer than the buffer (the peer chooses the fragment count) makes the slice expression panic in Read while the session mutex is held", c.DescribePath(res.Path))
+		} else {
+			r.ok("C05.B13", fi.Name, p.Pos(st.Node), "recvbuf = "+exprString(st.Rhs), "every path passes cap(recvbuf) >= size or a re-allocation with size")
+		}
+	}
+	if n == 0 {
+		r.ok("C05.B13", fi.Name, p.Pos(fi.Node), "staging buffer", "Read does not reslice a staging buffer to the message size")
 	}
 }
